@@ -180,7 +180,7 @@ fn gen_case(s: &mut Src, exh: u32) -> Case {
     let mut ops = Vec::new();
     let mut issued = 0usize;
     for _ in 0..nops {
-        let k = if all_noop { s.weighted(&[6, 3, 2, 1, 0]) } else { s.weighted(&[4, 4, 2, 3, 1]) };
+        let k = if all_noop { s.weighted(&[5, 3, 2, 3, 2]) } else { s.weighted(&[4, 4, 2, 3, 1]) };
         let op = match k {
             0 if issued < 6 => {
                 issued += 1;
@@ -344,14 +344,20 @@ pub fn run(s: &mut Src, ctx: &mut Ctx) -> Verdict {
         data: Data,
         /// false once an action may have rewritten this fact's fields
         data_known: bool,
+        /// logical time of the last insert/update through the API
+        written_at: u64,
     }
     let mut facts: Vec<MFact> = Vec::new();
     let mut last_id = 0u64;
     let all_noop = c.rules.iter().all(|r| r.act == ActKind::None && r.ast.no_loop);
     let mut first_fire_done = false;
+    let mut armed: Vec<bool> = vec![true; c.rules.len()];
+    let mut clock: u64 = 1;
+    let mut last_fire_all: u64 = 0;
     let (mut nt_stale, mut nt_action_modifies, mut nt_compete) = (false, false, false);
     let mut pending_dirty: BTreeSet<usize> = BTreeSet::new(); // facts updated/retracted since last fire_all that matched some rule before
     for (oi, op) in c.ops.iter().enumerate() {
+        clock += 1;
         match op {
             Op6::Insert(ty, d) => {
                 let h = engine.insert(TYPES[*ty].to_string(), data_to_typed(d));
@@ -359,7 +365,7 @@ pub fn run(s: &mut Src, ctx: &mut Ctx) -> Verdict {
                     return Verdict::fail("handle-reused-or-not-increasing", format!("op {}: insert returned id {} after {}", oi, h.id(), last_id));
                 }
                 last_id = h.id();
-                facts.push(MFact { handle: h, ty: *ty, live: true, data: d.clone(), data_known: true });
+                facts.push(MFact { handle: h, ty: *ty, live: true, data: d.clone(), data_known: true, written_at: clock });
             }
             Op6::Update(i, d) => {
                 if let Some(f) = facts.get_mut(*i) {
@@ -371,6 +377,7 @@ pub fn run(s: &mut Src, ctx: &mut Ctx) -> Verdict {
                         }
                         f.data = d.clone();
                         f.data_known = true;
+                        f.written_at = clock;
                         if matched_before {
                             pending_dirty.insert(*i);
                         }
@@ -393,7 +400,12 @@ pub fn run(s: &mut Src, ctx: &mut Ctx) -> Verdict {
                     }
                 }
             }
-            Op6::Reset => engine.reset(),
+            Op6::Reset => {
+                engine.reset();
+                for a in armed.iter_mut() {
+                    *a = true;
+                }
+            }
             Op6::FireAll => {
                 rec.lock().unwrap().clear();
                 let live_before: BTreeSet<u64> = facts.iter().filter(|f| f.live).map(|f| f.handle.id()).collect();
@@ -448,17 +460,28 @@ pub fn run(s: &mut Src, ctx: &mut Ctx) -> Verdict {
                         }
                     }
                 }
-                // O2: completeness of the first fire_all when actions are no-ops and every rule is no-loop
-                if all_noop && !first_fire_done {
+                // O2: completeness and exclusiveness when actions are no-ops and every rule is no-loop.
+                // A rule is *armed* if it has not fired since the last reset(). An activation is created when a
+                // fact is inserted/updated and consumed only by fire_all, so the engine owes a firing of an armed
+                // rule whenever some live fact of its type satisfies it and was last written after the previous
+                // fire_all (at the first fire_all: any live satisfying fact). It may additionally fire an armed rule
+                // that some live fact satisfies (left-over activation); it must fire nothing else, and nothing twice.
+                if all_noop {
                     let mut must: Vec<String> = Vec::new();
                     let mut may: Vec<String> = Vec::new();
                     let mut undefined = false;
-                    for r in &c.rules {
+                    for (ri, r) in c.rules.iter().enumerate() {
                         let mut sat = false;
+                        let mut sat_new = false;
                         for f in facts.iter().filter(|f| f.live) {
                             if f.ty == r.ty {
                                 match ref_on(r, &data_map(&f.data)) {
-                                    T3::True => sat = true,
+                                    T3::True => {
+                                        sat = true;
+                                        if f.written_at > last_fire_all {
+                                            sat_new = true;
+                                        }
+                                    }
                                     T3::Undef(_) => undefined = true,
                                     T3::False => {}
                                 }
@@ -467,9 +490,12 @@ pub fn run(s: &mut Src, ctx: &mut Ctx) -> Verdict {
                         // a fact of another type satisfies a rule only vacuously (every field absent): either outcome is accepted
                         // (the RETE evaluator and REF treat absent fields differently, and the quantifier excludes them)
                         let vacuous = facts.iter().any(|f| f.live && f.ty != r.ty);
-                        if sat {
+                        if !armed[ri] {
+                            continue; // must not fire: checked below
+                        }
+                        if sat_new {
                             must.push(r.ast.name.clone());
-                        } else if vacuous {
+                        } else if sat || vacuous {
                             may.push(r.ast.name.clone());
                         }
                     }
@@ -477,23 +503,36 @@ pub fn run(s: &mut Src, ctx: &mut Ctx) -> Verdict {
                         let mut got = fired.clone();
                         got.sort();
                         for m in &must {
-                            if got.iter().filter(|g| *g == m).count() != 1 {
-                                let n = got.iter().filter(|g| *g == m).count();
+                            let n = got.iter().filter(|g| *g == m).count();
+                            if n != 1 {
                                 let sig = if n == 0 { "completeness:missing" } else { "completeness:extra-or-duplicate" };
-                                return Verdict::fail(sig, format!("op {}: first fire_all fired {:?}; rule {} is satisfied by a live fact and must fire exactly once", oi, got, m));
+                                return Verdict::fail(sig, format!("op {}: fire_all fired {:?}; armed no-loop rule {} is satisfied by a live fact written since the previous fire_all and must fire exactly once", oi, got, m));
                             }
                         }
                         for g in &got {
-                            if !must.contains(g) && !may.contains(g) {
-                                return Verdict::fail("completeness:extra-or-duplicate", format!("op {}: first fire_all fired {:?} but no live fact satisfies {}", oi, got, g));
+                            let ri = c.rules.iter().position(|r| &r.ast.name == g).unwrap_or(0);
+                            if !armed[ri] {
+                                return Verdict::fail("completeness:no-loop-refire", format!("op {}: fire_all fired {:?} but no-loop rule {} already fired since the last reset", oi, got, g));
                             }
-                            if may.contains(g) && got.iter().filter(|x| *x == g).count() > 1 {
-                                return Verdict::fail("completeness:extra-or-duplicate", format!("op {}: first fire_all fired no-loop rule {} more than once: {:?}", oi, g, got));
+                            if !must.contains(g) && !may.contains(g) {
+                                return Verdict::fail("completeness:extra-or-duplicate", format!("op {}: fire_all fired {:?} but no live fact satisfies {}", oi, got, g));
+                            }
+                            if got.iter().filter(|x| *x == g).count() > 1 {
+                                return Verdict::fail("completeness:extra-or-duplicate", format!("op {}: fire_all fired no-loop rule {} more than once: {:?}", oi, g, got));
                             }
                         }
                         ctx.label("O2-judged");
+                        if first_fire_done && !must.is_empty() {
+                            ctx.label("O2-judged-on-later-fire_all");
+                        }
+                    }
+                    for g in &fired {
+                        if let Some(ri) = c.rules.iter().position(|r| &r.ast.name == g) {
+                            armed[ri] = false;
+                        }
                     }
                 }
+                last_fire_all = clock;
                 first_fire_done = true;
                 {
                     let live_n = facts.iter().filter(|f| f.live).count();
@@ -592,7 +631,7 @@ pub fn property() -> Property {
     Property {
         id: "C06",
         level: "exploration",
-        rule: "generated: 1-4 single-type rules over 3 fact types (well-typed atoms: int field vs literal/field with == != < <= > >=, string field with == != contains startsWith endsWith, bool field, one arithmetic operator on the left; && || ! to depth 3; salience ties; no-loop; action none / set unrelated field / set a condition field / Retract of the matched fact), converted by the real GrlReteLoader (hook verif_convert_rule) from parsed GRL text (part parser) or identical Rule values (part api), action closures wrapped by a recorder; histories of 4-14 insert/update/retract/fire_all/reset operations over <= 6 facts with a 3-value domain per field; plus exhaustive histories over 2 facts x 1 rule x 2 values. Oracles: O1 every firing's matched handle is live (engine view and API-level model) and REF says the rule's condition is true of exactly the contents the engine presents for that handle; O2 when all rules are no-loop with no actions, the first fire_all fires exactly the rules satisfied by some live fact, each once; O3 after every operation get / get_by_type / get_all_facts / get_all_handles agree for every handle ever issued, ids increase, retracted handles are rejected by update/retract. Non-trivial: a fact matching some rule is updated or retracted before the next fire_all, or an action modifies/retracts with >= 2 live facts, or rules of different salience fire in one fire_all; distinct by hash of (rules, history).",
+        rule: "generated: 1-4 single-type rules over 3 fact types (well-typed atoms: int field vs literal/field with == != < <= > >=, string field with == != contains startsWith endsWith, bool field, one arithmetic operator on the left; && || ! to depth 3; salience ties; no-loop; action none / set unrelated field / set a condition field / Retract of the matched fact), converted by the real GrlReteLoader (hook verif_convert_rule) from parsed GRL text (part parser) or identical Rule values (part api), action closures wrapped by a recorder; histories of 4-14 insert/update/retract/fire_all/reset operations over <= 6 facts with a 3-value domain per field; plus exhaustive histories over 2 facts x 1 rule x 2 values. Oracles: O1 every firing's matched handle is live (engine view and API-level model) and REF says the rule's condition is true of exactly the contents the engine presents for that handle; O2 when all rules are no-loop with no actions: every fire_all fires exactly once each armed rule (not fired since the last reset) that a live fact written since the previous fire_all satisfies, may fire an armed rule some live fact satisfies, and fires nothing else; O3 after every operation get / get_by_type / get_all_facts / get_all_handles agree for every handle ever issued, ids increase, retracted handles are rejected by update/retract. Non-trivial: a fact matching some rule is updated or retracted before the next fire_all, or an action modifies/retracts with >= 2 live facts, or rules of different salience fire in one fire_all; distinct by hash of (rules, history).",
         assumptions: vec![
             "all facts of a type carry all fields (absent fields in the RETE evaluator are outside the statement)".into(),
             "multi-type joins, exists/forall, accumulate, multi-operator arithmetic are not generated".into(),
